@@ -102,6 +102,9 @@ try:
         try:
             prev = json.load(open(old))
             meta["needs"] = meta.get("needs") or prev.get("needs")
+            for k in ("round", "superseded", "note"):
+                if k in prev and k not in meta:
+                    meta[k] = prev[k]
             if "suite" not in meta and prev.get("suite"):
                 meta["suite"] = dict(prev["suite"], note="from the first confirmation run of this seeded change")
             meta.setdefault("history", prev.get("history", []))
